@@ -284,6 +284,26 @@ def run_contracts(col, cls, p, g, tag):
         return True, None
     col.check(f"{cls}:scalar-vs-array", scalar_vs_array, inputs=inp)
 
+    def integer_nodes():
+        # hand-built nodes are often integer-typed (np.array([-1, 0, 1])): every method answers as for the same values given as floats
+        lo, hi = (float(v) for v in tf.domain)
+        first = int(np.floor(lo)) + 1 if np.isfinite(lo) else -2
+        ks = [k for k in range(first, first + 6) if lo < k < hi and (not hasattr(tf, "b") or tf.b is None or k <= float(tf.b))]
+        if not ks:
+            return True, None
+        xi = np.array(ks)
+        xf = xi.astype(float)
+        for which in ("transform", "deriv", "deriv2", "deriv3"):
+            with np.errstate(all="ignore"):
+                a = np.asarray(getattr(tf, which)(xi), dtype=float)
+                b_ = np.asarray(getattr(tf, which)(xf), dtype=float)
+            if a.shape != b_.shape or not np.allclose(a, b_, rtol=1e-12, atol=0, equal_nan=True):
+                return False, f"{which}: integer-typed nodes {ks} give {a.tolist()}, the same nodes as floats {b_.tolist()}"
+        if list(xi) != ks or xi.dtype.kind != "i":
+            return False, "the caller's integer array was modified"
+        return True, None
+    col.check(f"{cls}:integer-nodes", integer_nodes, inputs=inp)
+
 
 def endpoints(col, cls, p):
     inp = {"cls": cls, "params": p}
